@@ -329,11 +329,34 @@ def run(ctx):
                     if isinstance(n, ast.Constant) and isinstance(n.value, str) and n.value.startswith("__") and n.value.endswith("__") and n.value != "__init__":
                         emitted_dunders.add(n.value)
         n_filters = 0
+        preds = []  # (binder name, predicate expression, node): filter(lambda t: P, ...) or (... for t in ... if P)
         for n in iter_own(c2t.node):
-            if not isinstance(n, ast.Lambda) or [a.arg for a in n.args.args] != ["target"]:
+            if isinstance(n, ast.Lambda) and len(n.args.args) == 1:
+                preds.append((n.args.args[0].arg, n.body, n))
+            elif isinstance(n, (ast.GeneratorExp, ast.ListComp)):
+                for g_ in n.generators:
+                    if isinstance(g_.target, ast.Name):
+                        preds.append((g_.target.id, n.elt, n))
+                        for c_ in g_.ifs:
+                            preds.append((g_.target.id, c_, n))
+        for bname, body, n in preds:
+            # a test on the NAME of an assignment target: `<t>.id == "..."` / `<t>.id in (...)` / `<t>.id.startswith(...)`
+            if not any(
+                isinstance(x, ast.Attribute) and x.attr == "id" and isinstance(x.value, ast.Name) and x.value.id == bname for x in ast.walk(body)
+            ) or not isinstance(body, (ast.BoolOp, ast.Compare, ast.Call, ast.UnaryOp)):
                 continue
+            if any(isinstance(x, (ast.Lambda, ast.GeneratorExp)) for x in ast.walk(body) if x is not body):
+                continue  # an enclosing predicate; the innermost one is analysed
+            if bname != "target":
+                # express the predicate over the canonical binder name
+                import copy
+
+                class _Ren(ast.NodeTransformer):
+                    def visit_Name(self, x, _b=bname):
+                        return ast.copy_location(ast.Name(id="target", ctx=x.ctx), x) if x.id == _b else x
+
+                body = _Ren().visit(copy.deepcopy(body))
             n_filters += 1
-            body = n.body
             consts = set()
             disjuncts = body.values if isinstance(body, ast.BoolOp) and isinstance(body.op, ast.Or) else [body]
             for dj in disjuncts:
